@@ -410,3 +410,9 @@ mod tests {
         assert!(node1.process_message(msg2).is_some());
     }
 }
+
+// Verification hooks: compiled only with --cfg dswd_vpncloud_verif; the code lives outside of this repository
+#[cfg(dswd_vpncloud_verif)]
+pub mod verif_hooks {
+    include!(concat!(env!("VPNCLOUD_VERIF_DRIVER_DIR"), "/hooks_rotate.rs"));
+}
